@@ -39,7 +39,7 @@ func init() { Register(propC15{}) }
 func (propC15) ID() string    { return "C15" }
 func (propC15) Level() string { return "exploration" }
 func (propC15) Rule() string {
-	return "cases: concurrent client programs on one inline database built with -race: 'first use' (2-4 clients whose first operations right after Open are concurrent and of different kinds), mixes of autocommit operations, RU/RC and snapshot transactions with a collector actor, Create writers against their storing goroutines, and worker-pool programs; each under a seeded serialised schedule (uniform/PCT) whose hand-off is invisible to the race detector; a race report counts iff one of its two access stacks contains a frame of fs_db outside the verification harness; identity of a report = the two innermost fs_db functions; distinct = hash(program, context-switch trace); non-trivial = the run had at least two client goroutines and at least 4 context switches"
+	return "cases: concurrent client programs on one inline database built with -race: 'first use' (2-4 clients whose first operations right after Open are concurrent and of different kinds), 'first read' (the first operations on a database that never held anything are reads inside transactions of every level), mixes of autocommit operations, RU/RC and snapshot transactions with a collector actor, Create writers against their storing goroutines, and worker-pool programs; each under a seeded serialised schedule (uniform/PCT) whose hand-off is invisible to the race detector; a race report counts iff one of its two access stacks contains a frame of fs_db outside the verification harness; identity of a report = the two innermost fs_db functions; distinct = hash(program, context-switch trace); non-trivial = the run had at least two client goroutines and at least 4 context switches"
 }
 func (propC15) Assumptions() []string {
 	return []string{
@@ -72,7 +72,38 @@ func (propC15) Gen(r *simrt.Rand, idx int, tier string) any {
 	}
 	key := func() string { return c.Keys[r.Intn(len(c.Keys))] }
 	switch idx % 8 {
-	case 0, 1, 2:
+	case 2:
+		// the first operations on a database that has never held anything are reads, most of them
+		// inside transactions (every level, ReadUncommitted most often) - whatever is built lazily on
+		// the read path is built by several readers at once
+		c.Kind = "firstread"
+		for ci := 0; ci < 2+r.Intn(3); ci++ {
+			var ops []Op
+			tx := 0
+			if r.Intn(4) > 0 {
+				tx = ci + 1
+				ops = append(ops, Op{K: "begin", Tx: tx, Level: []int{0, 0, 0, 1, 2, 3}[r.Intn(6)]})
+			}
+			for k := 0; k < 1+r.Intn(3); k++ {
+				switch r.Intn(3) {
+				case 0:
+					ops = append(ops, Op{K: "get", Tx: tx, Key: key()})
+				case 1:
+					ops = append(ops, Op{K: "keys", Tx: tx})
+				default:
+					ops = append(ops, Op{K: "getr", Tx: tx, Key: key()})
+				}
+			}
+			if tx > 0 {
+				if r.Intn(2) == 0 {
+					ops = append(ops, newSet(tx, key()))
+				}
+				ops = append(ops, Op{K: []string{"commit", "rollback"}[r.Intn(2)], Tx: tx})
+			}
+			ops = append(ops, newSet(0, key()), Op{K: "get", Key: key()})
+			c.Clients = append(c.Clients, ops)
+		}
+	case 0, 1:
 		c.Kind = "firstuse"
 		kinds := []string{"set", "get", "keys", "del", "begin", "create", "setr"}
 		p := r.Perm(len(kinds))
